@@ -18,6 +18,8 @@
 import GoblVerif.Spec.C18
 import GoblVerif.Generated.Defs
 import GoblVerif.Generated.RefsFacts
+import GoblVerif.Model.RefsCtx
+import GoblVerif.Generated.RefsCtxFacts
 
 namespace GoblVerif.Props.C18
 open GoblVerif.Refs GoblVerif.Spec.C18
@@ -338,6 +340,103 @@ theorem comboResolvesB_sound (d : Defs) (docCode : String) (c : Combo)
         obtain ⟨rt, hrt, rfl⟩ := hk
         exact ⟨rt, hrt, hkh⟩
 
+/-! ## the rules over a whole document: which regime reaches a combo (Model/RefsCtx.lean) -/
+
+/-- the context of a document carries the document's regime definition (or nothing) -/
+theorem docContext_eq (d : Defs) (doc : Doc) : regimeFromContext (docContext d doc) = d.regimeFor doc.regime := by
+  unfold regimeFromContext docContext withRegime
+  cases d.regimeFor doc.regime <;> rfl
+
+/-- **the regime that applies to a combo is the document's** (unless the combo names a
+    country: `comboRegime`): in an accepted document every combo passed the combo rules with
+    the DOCUMENT's regime definition, whatever `$regime` the parties declare -/
+theorem doc_combos_judged_by_document_regime (d : Defs) (pm : PatternMatch) (doc : Doc)
+    (h : validateDoc d pm doc = true) :
+    ∀ c ∈ doc.combos, validateCombo d pm (d.regimeFor doc.regime) c = true := by
+  unfold validateDoc at h
+  simp only [Bool.and_eq_true, List.all_eq_true] at h
+  intro c hc
+  have := h.2 c hc
+  rwa [docContext_eq] at this
+
+/-- **a party's `$regime` concerns that party only**: the verdict on a document is the
+    verdict on the document without its parties, and the verdict on each party; in
+    particular replacing the parties (their regimes included) cannot make a combo, a tag or
+    `prices_include` acceptable that was not -/
+theorem party_regimes_do_not_reach_the_lines (d : Defs) (pm : PatternMatch) (doc : Doc) (ps : List Party) :
+    validateDoc d pm { doc with parties := ps } =
+      (validateDoc d pm { doc with parties := [] } && ps.all (validateParty d pm (docContext d doc))) := by
+  unfold validateDoc docContext
+  simp only [List.all_nil, Bool.and_true]
+  cases validateRegime d doc.regime <;> cases validateAddons d doc.addons <;>
+    cases validateDocTags (d.regimeFor doc.regime) (List.filterMap d.addonFor doc.addons) doc.schema doc.tags <;>
+    cases validatePricesInclude (regimeFromContext (withRegime (d.regimeFor doc.regime) none)) doc.pricesInclude <;>
+    cases List.all ps (validateParty d pm (withRegime (d.regimeFor doc.regime) none)) <;>
+    cases List.all doc.combos (validateCombo d pm (regimeFromContext (withRegime (d.regimeFor doc.regime) none))) <;> rfl
+
+/-- **whole-document soundness of the generic rules**: an accepted document with a
+    `$regime` names a defined regime and defined addons; every combo whose applicable regime
+    (country override, else the DOCUMENT's) is defined resolves in it, with its extensions;
+    every party's own `$regime` is empty or defined and its extensions resolve; on the
+    document types that apply the rule the tags are offered by the document's regime or an
+    addon in use; a non-empty `prices_include` is a category of the document's regime -/
+theorem doc_sound (d : Defs) (pm : PatternMatch) (doc : Doc)
+    (h : validateDoc d pm doc = true) (hreg : doc.regime ≠ "") :
+    regimeResolves d doc.regime ∧
+    (∀ k ∈ doc.addons, addonResolves d k) ∧
+    (∀ c ∈ doc.combos, (comboRegime d (d.regimeFor doc.regime) c).isSome = true →
+        comboResolves d doc.regime c ∧ extResolves d pm c.ext) ∧
+    (∀ p ∈ doc.parties, (p.regime = "" ∨ regimeResolves d p.regime) ∧ extResolves d pm p.ext) ∧
+    (doc.schema ∈ tagCheckedSchemas →
+        ∀ t ∈ doc.tags, tagResolves (d.regimeFor doc.regime) (doc.addons.filterMap d.addonFor) doc.schema t) ∧
+    (doc.pricesInclude ≠ "" → includesResolves d doc.regime doc.pricesInclude) := by
+  have hcombos := doc_combos_judged_by_document_regime d pm doc h
+  unfold validateDoc at h
+  simp only [Bool.and_eq_true, List.all_eq_true] at h
+  obtain ⟨⟨⟨⟨⟨hr, ha⟩, ht⟩, hpi⟩, hp⟩, _⟩ := h
+  have hsome : (d.regimeFor doc.regime).isSome = true := by
+    rcases regime_sound d doc.regime hr with h0 | h1
+    · exact absurd h0 hreg
+    · exact h1
+  refine ⟨(regimeResolvesB_iff d doc.regime).mp hsome, addons_sound d doc.addons ha, ?_, ?_, ?_, ?_⟩
+  · intro c hc hcr
+    exact combo_sound d pm doc.regime c (hcombos c hc) hcr
+  · intro p hpm
+    have := hp p hpm
+    unfold validateParty at this
+    simp only [Bool.and_eq_true] at this
+    refine ⟨?_, ext_sound d pm p.ext this.2⟩
+    rcases regime_sound d p.regime this.1 with h0 | h1
+    · exact Or.inl h0
+    · exact Or.inr ((regimeResolvesB_iff d p.regime).mp h1)
+  · intro hs
+    exact doc_tags_sound (d.regimeFor doc.regime) (doc.addons.filterMap d.addonFor) doc.schema doc.tags hs ht
+  · intro hne
+    rw [docContext_eq] at hpi
+    exact prices_include_sound d doc.regime doc.pricesInclude hr hreg hpi hne
+
+/-- one shared slot for the regime gives the code's verdict as long as no party declares a
+    defined regime of its own — which is why no shipped example tells the two apart -/
+theorem shared_agrees_without_party_regimes (d : Defs) (pm : PatternMatch) (doc : Doc)
+    (hp : ∀ p ∈ doc.parties, d.regimeFor p.regime = none) :
+    validateDocShared d pm doc = validateDoc d pm doc := by
+  have hfold : ∀ (ps : List Party) (ctx : VCtx), (∀ p ∈ ps, d.regimeFor p.regime = none) →
+      sharedAfterParties d ctx ps = ctx := by
+    intro ps
+    induction ps with
+    | nil => intro ctx _; rfl
+    | cons p ps ih =>
+      intro ctx hall
+      unfold sharedAfterParties
+      rw [List.foldl_cons]
+      have hp0 : partyContext d ctx p = ctx := by
+        unfold partyContext withRegime
+        rw [hall p (List.mem_cons_self)]
+      rw [hp0]
+      exact ih ctx (fun q hq => hall q (List.mem_cons_of_mem p hq))
+  unfold validateDocShared validateDoc
+  simp only [hfold doc.parties (docContext d doc) hp]
+
 /-! ## non-vacuity and the findings on the published data -/
 namespace Expect
 open GoblVerif.Generated.Defs
@@ -446,6 +545,88 @@ theorem stored_total_rules_applied :
     ("Tax", []) ∈ rules_Payment_ValidateWithContext := by decide +kernel
 
 end Applied
+
+/-! ### the regime in the validation context, and state beside the content
+    (regenerated from tax/*.go, org/party.go, bill/*.go and every struct of the library) -/
+section Context
+open GoblVerif.Generated.RefsCtxFacts
+
+/-- the hypotheses of `doc_sound` are satisfiable on the published definitions: a Spanish
+    invoice whose customer declares the French regime, with a Spanish combo and a combo
+    naming Portugal -/
+example : validateDoc defs (fun _ _ => true)
+      ⟨"bill/invoice", "ES", ["es-facturae-v3"], ["simplified"], "VAT", [⟨"", []⟩, ⟨"FR", []⟩],
+        [⟨"VAT", "", "standard+eqs", []⟩, ⟨"VAT", "PT", "intermediate", []⟩]⟩ = true ∧ "ES" ≠ "" := by
+  decide +kernel
+
+/-- **what one shared slot would do** (not the code): a Portuguese invoice whose customer
+    declares the Mexican regime is refused by the rules as the code applies them when a line
+    carries the Mexican category ISR — and accepted once the party's regime stays in a
+    shared slot, although ISR is no category of the document's regime -/
+theorem shared_context_would_be_unsound :
+    validateDoc defs (fun _ _ => true) ⟨"bill/invoice", "PT", [], [], "", [⟨"", []⟩, ⟨"MX", []⟩], [⟨"ISR", "", "", []⟩]⟩ = false ∧
+    validateDocShared defs (fun _ _ => true) ⟨"bill/invoice", "PT", [], [], "", [⟨"", []⟩, ⟨"MX", []⟩], [⟨"ISR", "", "", []⟩]⟩ = true ∧
+    comboResolvesB defs "PT" ⟨"ISR", "", "", []⟩ = false ∧ comboResolvesB defs "MX" ⟨"ISR", "", "", []⟩ = true := by
+  decide +kernel
+
+/-- a regime reaches the context by `context.WithValue` under its own key (a derived
+    context; the one handed in is not touched), is read back from that key, and is put there
+    by the four documents for themselves and by a party for its own validation only:
+    `withRegime`, `regimeFromContext`, `docContext`, `partyContext` are what the code does.
+    The combo reads the context when it names no country. -/
+theorem regime_context_as_modelled :
+    body_RegimeDef_WithContext =
+      "{ if r == nil { return ctx } ctx = context.WithValue(ctx, keyRegime, r) ctx = contextWithValidator(ctx, r.Validator) return ctx }" ∧
+    body_RegimeDefFromContext = "{ r, ok := ctx.Value(keyRegime).(*RegimeDef) if !ok { return nil } return r }" ∧
+    body_contextWithValidator =
+      "{ if v == nil { return ctx } list := append(Validators(ctx), v) return context.WithValue(ctx, validtorsKey, list) }" ∧
+    body_AddonDef_WithContext = "{ if ad == nil { return ctx } ctx = contextWithValidator(ctx, ad.Validator) return ctx }" ∧
+    body_Party_validationContext = "{ if r := p.RegimeDef(); r != nil { ctx = r.WithContext(ctx) } return ctx }" ∧
+    calls_Party_ValidateWithContext.take 2 = ["validationContext", "ValidateStructWithContext"] ∧
+    calls_Invoice_validationContext = ["RegimeDef", "WithContext", "AddonDefs", "WithContext"] ∧
+    calls_Order_validationContext = ["RegimeDef", "WithContext", "AddonDefs", "WithContext"] ∧
+    calls_Delivery_validationContext = ["RegimeDef", "WithContext", "AddonDefs", "WithContext"] ∧
+    calls_Payment_validationContext = ["RegimeDef", "WithContext", "AddonDefs", "WithContext"] ∧
+    calls_Combo_ValidateWithContext.take 4 = ["Empty", "RegimeDefFromContext", "RegimeDefFor", "Code"] ∧
+    withContext_sites =
+      [("bill", "Delivery.validationContext"), ("bill", "Invoice.validationContext"), ("bill", "Order.validationContext"),
+       ("bill", "Payment.validationContext"), ("org", "Party.validationContext"), ("tax", "RegimeDef.ValidateWithContext")] := by
+  decide +kernel
+
+/-- the members of serialised structs that `encoding/json` neither writes nor reads: a
+    freshly parsed copy of a document does not carry them.  Definitions (`RegimeDef`,
+    `AddonDef`, `Scenario`) hold functions; `schema.Object.payload` is the document itself
+    (written by `MarshalJSON`); the rest is what a calculation leaves behind in a document -/
+theorem hidden_state_as_modelled :
+    hidden_fields =
+      [("bill", "CorrectionOptions", "data"), ("bill", "Tax", "tags"), ("schema", "Object", "payload"),
+       ("tax", "AddonDef", "Normalizer"), ("tax", "AddonDef", "Validator"), ("tax", "CategoryTotal", "amount"),
+       ("tax", "Combo", "retained"), ("tax", "RegimeDef", "Normalizer"), ("tax", "RegimeDef", "Validator"),
+       ("tax", "Scenario", "Filter"), ("tax", "Total", "sum")] := by
+  decide +kernel
+
+/-- **the verdict of validation is a function of the document's content** as far as the
+    structs go: of the state a document carries beside its content (`bill.Tax.tags`,
+    `bill.CorrectionOptions.data`, `tax.Combo.retained`, `tax.CategoryTotal.amount`,
+    `tax.Total.sum`) none is mentioned in a function whose name starts with `validate`, in
+    whatever case; they are read by the calculation, by `UnmarshalJSON` and by the
+    correction options only.  (Package-level state is not covered by this.) -/
+theorem validation_reads_no_hidden_document_state :
+    (hidden_readers.filter fun r =>
+        (r.1 == "bill" && (r.2.2.2 == "tags" || r.2.2.2 == "data") ||
+         r.1 == "tax" && (r.2.2.2 == "retained" || r.2.2.2 == "amount" || r.2.2.2 == "sum")) &&
+        r.2.2.1 == "validate") = [] ∧
+    (hidden_readers.map (·.2.1)).eraseDups =
+      ["Invoice.UnmarshalJSON", "Tax.UnmarshalJSON", "WithData", "prepareCorrectionOptions",
+       "Object.Calculate", "Object.Correct", "Object.CorrectionOptionsSchema", "Object.Instance", "Object.IsEmpty",
+       "Object.MarshalJSON", "Object.Replicate", "Object.UUID", "Object.UnmarshalJSON", "Object.ValidateWithContext",
+       "Object.insert", "AddonDef.WithContext", "CategoryTotal.PreciseAmount", "Combo.calculateForRegime",
+       "ExtractNormalizers", "RegimeDef.NormalizeObject", "RegimeDef.ValidateObject", "RegimeDef.WithContext",
+       "Scenario.match", "Total.Clone", "Total.Merge", "Total.Negate", "Total.PreciseSum", "Total.round",
+       "TotalCalculator.removeIncludedTaxes", "newCategoryTotal"] := by
+  decide +kernel
+
+end Context
 
 /-- every published extension key has at most one definition, so the registry
     lookup of the model (first match) and of the code (map) agree -/
